@@ -203,3 +203,409 @@ Example history_example :
   map fst h = [traverser_call ([], wit_tree) q; traverser_call ([], wit_tree) q] /\
   map (fun x => length (snd x)) h = [2; 2].
 Proof. vm_compute. split; reflexivity. Qed.
+
+(* ====================================================================== *)
+(* The remaining caches: traversal_path_info (lru, calls the memoised
+   split_path_info), _join_path_tuple (lru, calls quote_path_segment whose
+   results live in the _segment_cache dictionary keyed by (segment, safe)).
+   A miss now runs a computation that itself touches another cache, so the
+   memo table is generalised to a state-passing miss function; results that
+   are exceptions are not cached (as in Python). *)
+Section MemoSt.
+Context {K V S : Type}.
+Variable eqb : K -> K -> bool.
+Variable f : K -> V.
+Variable bound : option nat.          (* None = a dictionary that never evicts *)
+Variable cacheable : V -> bool.
+Variable g : S -> K -> V * S.
+Variable InvS : S -> Prop.
+Hypothesis eqb_sound : forall a b, eqb a b = true -> a = b.
+Hypothesis g_ok : forall s k, InvS s -> fst (g s k) = f k /\ InvS (snd (g s k)).
+
+Definition trim (c : @cache K V) : @cache K V :=
+  match bound with Some n => firstn n c | None => c end.
+
+Definition memo_call_st (c : @cache K V) (s : S) (k : K) : V * (@cache K V * S) :=
+  match lookup eqb k c with
+  | Some v => (v, ((k, v) :: remove eqb k c, s))
+  | None => let '(v, s') := g s k in
+            (v, (if cacheable v then trim ((k, v) :: c) else c, s'))
+  end.
+
+Lemma memo_call_st_correct c s k :
+  cache_ok f c -> InvS s ->
+  fst (memo_call_st c s k) = f k /\
+  cache_ok f (fst (snd (memo_call_st c s k))) /\ InvS (snd (snd (memo_call_st c s k))).
+Proof.
+  intros Hc Hs. unfold memo_call_st. destruct (lookup eqb k c) as [v|] eqn:E; simpl.
+  - pose proof (lookup_ok eqb f eqb_sound _ _ _ Hc E) as ->. repeat split; auto.
+    constructor; [reflexivity|]. apply cache_ok_filter, Hc.
+  - destruct (g s k) as [v s'] eqn:Eg. destruct (g_ok s k Hs) as [H1 H2]. rewrite Eg in H1, H2.
+    simpl in *. subst v. repeat split; auto.
+    destruct (cacheable (f k)); [|exact Hc]. unfold trim.
+    assert (Hn : cache_ok f ((k, f k) :: c)) by (constructor; [reflexivity|exact Hc]).
+    destruct bound; [apply cache_ok_firstn|]; exact Hn.
+Qed.
+End MemoSt.
+
+(* ---- key equalities *)
+Fixpoint texts_eqb (a b : list text) : bool :=
+  match a, b with
+  | [], [] => true
+  | x :: a', y :: b' => text_eqb x y && texts_eqb a' b'
+  | _, _ => false
+  end.
+Lemma texts_eqb_sound a b : texts_eqb a b = true -> a = b.
+Proof.
+  revert b. induction a as [|x a IH]; destruct b as [|y b]; simpl; try discriminate; [reflexivity|].
+  intros H. apply andb_true_iff in H as [H1 H2]. apply text_eqb_eq in H1. f_equal; auto.
+Qed.
+Definition segkey_eqb (a b : text * text) : bool := text_eqb (fst a) (fst b) && text_eqb (snd a) (snd b).
+Lemma segkey_eqb_sound a b : segkey_eqb a b = true -> a = b.
+Proof.
+  destruct a, b. unfold segkey_eqb. simpl. intros H. apply andb_true_iff in H as [H1 H2].
+  apply text_eqb_eq in H1. apply text_eqb_eq in H2. congruence.
+Qed.
+Lemma text_eqb_sound a b : text_eqb a b = true -> a = b.
+Proof. apply text_eqb_eq. Qed.
+
+Definition is_ok {A} (r : result A) : bool := match r with Ok _ => true | _ => false end.
+
+(* ---- the process-wide caches *)
+Record caches := mkCaches {
+  c_spi : @cache text (list text);                 (* split_path_info *)
+  c_tpi : @cache text (result (list text));        (* traversal_path_info *)
+  c_join : @cache (list text) (result text);       (* _join_path_tuple *)
+  c_seg : @cache (text * text) (result text) }.    (* _segment_cache[(segment, safe)] *)
+
+Definition f_seg (k : text * text) : result text := quote_path_segment_safe (fst k) (snd k).
+
+Definition caches_ok (C : caches) : Prop :=
+  cache_ok split_path_info (c_spi C) /\ cache_ok traversal_path_info (c_tpi C) /\
+  cache_ok join_path_tuple (c_join C) /\ cache_ok f_seg (c_seg C).
+
+(* quote_path_segment(segment, safe) through the dictionary *)
+Definition seg_st (sc : @cache (text * text) (result text)) (k : text * text)
+  : result text * @cache (text * text) (result text) :=
+  let '(v, (sc', _)) := memo_call_st segkey_eqb None is_ok (fun (u : unit) k => (f_seg k, u)) sc tt k in
+  (v, sc').
+
+Lemma seg_st_ok sc k :
+  cache_ok f_seg sc -> fst (seg_st sc k) = f_seg k /\ cache_ok f_seg (snd (seg_st sc k)).
+Proof.
+  intros H. unfold seg_st.
+  pose proof (memo_call_st_correct segkey_eqb f_seg None is_ok (fun (u : unit) k => (f_seg k, u))
+                (fun _ => True) segkey_eqb_sound (fun s k _ => conj eq_refl I) sc tt k H I) as (H1 & H2 & _).
+  destruct (memo_call_st segkey_eqb None is_ok (fun (u : unit) k0 => (f_seg k0, u)) sc tt k) as [v [sc' u]].
+  simpl in *. auto.
+Qed.
+
+Lemma quote_default seg : quote_path_segment seg = f_seg (seg, path_segment_safe).
+Proof. reflexivity. Qed.
+
+(* [quote_path_segment(x) for x in tuple] through the dictionary *)
+Fixpoint rmap_seg_st (sc : @cache (text * text) (result text)) (l : list text)
+  : result (list text) * @cache (text * text) (result text) :=
+  match l with
+  | [] => (Ok [], sc)
+  | x :: r =>
+      let '(y, sc1) := seg_st sc (x, path_segment_safe) in
+      match y with
+      | Ok y' => let '(ys, sc2) := rmap_seg_st sc1 r in
+                 (match ys with Ok ys' => Ok (y' :: ys') | Exc e => Exc e | Unsupported => Unsupported end, sc2)
+      | Exc e => (Exc e, sc1)
+      | Unsupported => (Unsupported, sc1)
+      end
+  end.
+
+Lemma rmap_seg_st_ok : forall l sc,
+  cache_ok f_seg sc ->
+  fst (rmap_seg_st sc l) = rmap quote_path_segment l /\ cache_ok f_seg (snd (rmap_seg_st sc l)).
+Proof.
+  induction l as [|x l IH]; intros sc H; [split; [reflexivity|exact H]|].
+  simpl. destruct (seg_st sc (x, path_segment_safe)) as [y sc1] eqn:E.
+  destruct (seg_st_ok sc (x, path_segment_safe) H) as [H1 H2]. rewrite E in H1, H2. simpl in H1, H2.
+  rewrite quote_default, <- H1.
+  destruct y as [y'|e|]; simpl; try (split; [reflexivity|exact H2]).
+  destruct (rmap_seg_st sc1 l) as [ys sc2] eqn:E2.
+  destruct (IH sc1 H2) as [H3 H4]. rewrite E2 in H3, H4. simpl in H3, H4. rewrite <- H3.
+  destruct ys; simpl; split; auto.
+Qed.
+
+(* the body of _join_path_tuple *)
+Definition join_raw_st (sc : @cache (text * text) (result text)) (l : list text)
+  : result text * @cache (text * text) (result text) :=
+  match l with
+  | [] => (Ok slash_text, sc)
+  | _ => let '(qs, sc') := rmap_seg_st sc l in
+         (match qs with
+          | Ok qs' => Ok (match join slash_text qs' with [] => slash_text | s => s end)
+          | Exc e => Exc e
+          | Unsupported => Unsupported
+          end, sc')
+  end.
+
+Lemma join_raw_st_ok sc l :
+  cache_ok f_seg sc ->
+  fst (join_raw_st sc l) = join_path_tuple l /\ cache_ok f_seg (snd (join_raw_st sc l)).
+Proof.
+  intros H. unfold join_raw_st, join_path_tuple. destruct l as [|x l]; [split; [reflexivity|exact H]|].
+  destruct (rmap_seg_st sc (x :: l)) as [qs sc'] eqn:E.
+  destruct (rmap_seg_st_ok (x :: l) sc H) as [H1 H2]. rewrite E in H1, H2. simpl fst in H1. simpl snd in H2.
+  rewrite <- H1. destruct qs; simpl; split; auto.
+Qed.
+
+Definition join_st (C : caches) (l : list text) : result text * caches :=
+  let '(v, (jc, sc)) := memo_call_st texts_eqb (Some lru_join_path_tuple) is_ok join_raw_st (c_join C) (c_seg C) l in
+  (v, mkCaches (c_spi C) (c_tpi C) jc sc).
+
+Lemma join_st_ok C l :
+  caches_ok C -> fst (join_st C l) = join_path_tuple l /\ caches_ok (snd (join_st C l)).
+Proof.
+  intros (H1 & H2 & H3 & H4). unfold join_st.
+  pose proof (memo_call_st_correct texts_eqb join_path_tuple (Some lru_join_path_tuple) is_ok join_raw_st
+                (cache_ok f_seg) texts_eqb_sound (fun s k Hs => join_raw_st_ok s k Hs)
+                (c_join C) (c_seg C) l H3 H4) as (A & B & D).
+  destruct (memo_call_st texts_eqb (Some lru_join_path_tuple) is_ok join_raw_st (c_join C) (c_seg C) l)
+    as [v [jc sc]]. simpl in *. split; [exact A|]. repeat split; assumption.
+Qed.
+
+(* the body of traversal_path_info: decode, then the memoised split_path_info *)
+Definition tpi_raw_st (spc : @cache text (list text)) (p : text)
+  : result (list text) * @cache text (list text) :=
+  match as_url_decode_error (decode_path_info p) with
+  | Ok d => let '(l, spc') := spi_memo lru_split_path_info spc d in (Ok l, spc')
+  | Exc e => (Exc e, spc)
+  | Unsupported => (Unsupported, spc)
+  end.
+
+Lemma spi_memo_ok n spc p :
+  cache_ok split_path_info spc ->
+  fst (spi_memo n spc p) = split_path_info p /\ cache_ok split_path_info (snd (spi_memo n spc p)).
+Proof. intros H. apply memo_call_correct; [exact text_eqb_sound|exact H]. Qed.
+
+Lemma tpi_raw_st_ok spc p :
+  cache_ok split_path_info spc ->
+  fst (tpi_raw_st spc p) = traversal_path_info p /\ cache_ok split_path_info (snd (tpi_raw_st spc p)).
+Proof.
+  intros H. unfold tpi_raw_st, traversal_path_info.
+  destruct (as_url_decode_error (decode_path_info p)) as [d|e|]; simpl; try (split; [reflexivity|exact H]).
+  destruct (spi_memo lru_split_path_info spc d) as [l spc'] eqn:E.
+  destruct (spi_memo_ok lru_split_path_info spc d H) as [H1 H2]. rewrite E in H1, H2. simpl in *.
+  subst l. split; [reflexivity|exact H2].
+Qed.
+
+Definition tpi_st (C : caches) (p : text) : result (list text) * caches :=
+  let '(v, (tc, spc)) := memo_call_st text_eqb (Some lru_traversal_path_info) is_ok tpi_raw_st (c_tpi C) (c_spi C) p in
+  (v, mkCaches spc tc (c_join C) (c_seg C)).
+
+Lemma tpi_st_ok C p :
+  caches_ok C -> fst (tpi_st C p) = traversal_path_info p /\ caches_ok (snd (tpi_st C p)).
+Proof.
+  intros (H1 & H2 & H3 & H4). unfold tpi_st.
+  pose proof (memo_call_st_correct text_eqb traversal_path_info (Some lru_traversal_path_info) is_ok tpi_raw_st
+                (cache_ok split_path_info) text_eqb_sound (fun s k Hs => tpi_raw_st_ok s k Hs)
+                (c_tpi C) (c_spi C) p H2 H1) as (A & B & D).
+  destruct (memo_call_st text_eqb (Some lru_traversal_path_info) is_ok tpi_raw_st (c_tpi C) (c_spi C) p)
+    as [v [tc spc]]. simpl in *. split; [exact A|]. repeat split; assumption.
+Qed.
+
+Definition tp_st (C : caches) (p : text) : result (list text) * caches :=
+  if is_ascii p then tpi_st C (Percent.unquote p) else (Exc UnicodeEncodeError, C).
+
+Lemma tp_st_ok C p :
+  caches_ok C -> fst (tp_st C p) = traversal_path p /\ caches_ok (snd (tp_st C p)).
+Proof.
+  intros H. unfold tp_st, traversal_path. destruct (is_ascii p); [apply tpi_st_ok, H|split; [reflexivity|exact H]].
+Qed.
+
+Definition quote_st (C : caches) (seg safe : text) : result text * caches :=
+  let '(v, sc) := seg_st (c_seg C) (seg, safe) in (v, mkCaches (c_spi C) (c_tpi C) (c_join C) sc).
+
+Lemma quote_st_ok C seg safe :
+  caches_ok C -> fst (quote_st C seg safe) = quote_path_segment_safe seg safe /\ caches_ok (snd (quote_st C seg safe)).
+Proof.
+  intros (H1 & H2 & H3 & H4). unfold quote_st.
+  destruct (seg_st (c_seg C) (seg, safe)) as [v sc] eqn:E.
+  destruct (seg_st_ok (c_seg C) (seg, safe) H4) as [A B]. rewrite E in A, B. simpl in *.
+  split; [exact A|]. repeat split; assumption.
+Qed.
+
+(* the traverser over the caches record *)
+Definition traverser_st (C : caches) (root : rnode) (q : request) : result tdict * caches :=
+  let '(v, spc) := traverser_call_st (@cache text (list text)) (spi_memo lru_split_path_info) (c_spi C) root q in
+  (v, mkCaches spc (c_tpi C) (c_join C) (c_seg C)).
+
+Lemma traverser_st_ok C root q :
+  caches_ok C -> fst (traverser_st C root q) = traverser_call root q /\ caches_ok (snd (traverser_st C root q)).
+Proof.
+  intros (H1 & H2 & H3 & H4). unfold traverser_st, traverser_call. rewrite f_mode.
+  destruct (traverser_call_st_ok (@cache text (list text)) (spi_memo lru_split_path_info)
+              (cache_ok split_path_info) (fun s p Hs => spi_memo_ok _ s p Hs) (c_spi C) root q H1) as [A B].
+  destruct (traverser_call_st (@cache text (list text)) (spi_memo lru_split_path_info) (c_spi C) root q) as [v spc].
+  simpl in *. split; [exact A|]. repeat split; assumption.
+Qed.
+
+(* pyramid.traversal.traverse over the caches, mirroring Model.traverse_with *)
+Definition traverse_api_st (C : caches) (root : res) (start : pos) (p : api_path) : result tdict * caches :=
+  let '(pathr, C1) := match p with
+                      | PStr s => (Ok s, C)
+                      | PTuple [] => (Ok [], C)
+                      | PTuple l => join_st C l
+                      end in
+  match pathr with
+  | Ok path =>
+      if negb (is_ascii path) then (Exc UnicodeEncodeError, C1)
+      else
+        let resource := match path with
+                        | c :: _ => if N.eqb c slash then Ok ([], root)
+                                    else match node_at root start with Some n => Ok (start, n) | None => Unsupported end
+                        | [] => match node_at root start with Some n => Ok (start, n) | None => Unsupported end
+                        end in
+        match resource with
+        | Ok rn =>
+            if has_scheme path then (Unsupported, C1)
+            else traverser_st C1 rn (mkReq (Some (webob_unquote (hd [] (split_on question path)))) None None)
+        | Exc e => (Exc e, C1)
+        | Unsupported => (Unsupported, C1)
+        end
+  | Exc e => (Exc e, C1)
+  | Unsupported => (Unsupported, C1)
+  end.
+
+Lemma traverse_api_st_ok C root start p :
+  caches_ok C ->
+  fst (traverse_api_st C root start p) = traverse_api root start p /\ caches_ok (snd (traverse_api_st C root start p)).
+Proof.
+  intros H. unfold traverse_api_st, traverse_api, traverse_with.
+  assert (Hj : exists pathr C1,
+             (match p with PStr s => (Ok s, C) | PTuple [] => (Ok [], C) | PTuple l => join_st C l end) = (pathr, C1)
+             /\ pathr = (match p with PStr s => Ok s | PTuple [] => Ok [] | PTuple l => join_path_tuple l end)
+             /\ caches_ok C1).
+  { destruct p as [s|l]; [eauto|]. destruct l as [|x l]; [eauto|].
+    destruct (join_st C (x :: l)) as [v C1] eqn:E. destruct (join_st_ok C (x :: l) H) as [A B].
+    rewrite E in A, B. simpl in A, B. eauto. }
+  destruct Hj as (pathr & C1 & -> & <- & H1).
+  destruct pathr as [path|e|]; cbn [rbind]; try (split; [reflexivity|exact H1]).
+  destruct (negb (is_ascii path)); [split; [reflexivity|exact H1]|].
+  set (resource := match path with
+                   | c :: _ => if N.eqb c slash then Ok ([], root)
+                               else match node_at root start with Some n => Ok (start, n) | None => Unsupported end
+                   | [] => match node_at root start with Some n => Ok (start, n) | None => Unsupported end
+                   end).
+  destruct resource as [rn|e|]; cbn [rbind]; try (split; [reflexivity|exact H1]).
+  destruct (has_scheme path); [split; [reflexivity|exact H1]|].
+  apply traverser_st_ok, H1.
+Qed.
+
+Definition find_resource_st (C : caches) (root : res) (start : pos) (p : api_path) : result found * caches :=
+  let '(d, C1) := traverse_api_st C root start p in
+  (rbind d (fun d => Ok (match t_view_name d with [] => FoundAt (t_context d) | _ => KeyErr end)), C1).
+
+Lemma find_resource_st_ok C root start p :
+  caches_ok C ->
+  fst (find_resource_st C root start p) = find_resource root start p /\ caches_ok (snd (find_resource_st C root start p)).
+Proof.
+  intros H. unfold find_resource_st, find_resource, find_resource_with.
+  destruct (traverse_api_st C root start p) as [d C1] eqn:E.
+  destruct (traverse_api_st_ok C root start p H) as [A B]. rewrite E in A, B. simpl in A, B.
+  fold (traverse_api root start p). rewrite <- A. split; [reflexivity|exact B].
+Qed.
+
+Definition router_st (C : caches) (root : rnode) (q : request) : result attrs * caches :=
+  let '(d, C1) := traverser_st C root q in
+  (router_traversal_with (fun _ _ => d) root q, C1).
+
+Lemma router_st_ok C root q :
+  caches_ok C -> fst (router_st C root q) = router_traversal root q /\ caches_ok (snd (router_st C root q)).
+Proof.
+  intros H. unfold router_st. destruct (traverser_st C root q) as [d C1] eqn:E.
+  destruct (traverser_st_ok C root q H) as [A B]. rewrite E in A, B. simpl in A, B.
+  split; [|exact B]. simpl. unfold router_traversal, router_traversal_with. rewrite A. reflexivity.
+Qed.
+
+(* ---- histories over every memoised entry point *)
+Inductive hop :=
+| HReq (root : rnode) (q : request)                     (* ResourceTreeTraverser(root)(request) *)
+| HRouter (root : rnode) (q : request)                  (* the same through Router.handle_request *)
+| HApi (tree : res) (start : pos) (p : api_path)        (* traverse(resource, path) *)
+| HFind (tree : res) (start : pos) (p : api_path)       (* find_resource(resource, path) *)
+| HTpi (p : text) | HTp (p : text)                      (* traversal_path_info / traversal_path *)
+| HQuote (seg safe : text).                             (* quote_path_segment(segment, safe) *)
+
+Inductive hans :=
+| ADict (r : result tdict) | AAttrs (r : result attrs) | AFound (r : result found)
+| ASegs (r : result (list text)) | AQuoted (r : result text).
+
+(* the cache-free answers *)
+Definition pure_op (o : hop) : hans :=
+  match o with
+  | HReq root q => ADict (traverser_call root q)
+  | HRouter root q => AAttrs (router_traversal root q)
+  | HApi t st p => ADict (traverse_api t st p)
+  | HFind t st p => AFound (find_resource t st p)
+  | HTpi p => ASegs (traversal_path_info p)
+  | HTp p => ASegs (traversal_path p)
+  | HQuote seg safe => AQuoted (quote_path_segment_safe seg safe)
+  end.
+
+Definition op_st (C : caches) (o : hop) : hans * caches :=
+  match o with
+  | HReq root q => let '(v, C') := traverser_st C root q in (ADict v, C')
+  | HRouter root q => let '(v, C') := router_st C root q in (AAttrs v, C')
+  | HApi t st p => let '(v, C') := traverse_api_st C t st p in (ADict v, C')
+  | HFind t st p => let '(v, C') := find_resource_st C t st p in (AFound v, C')
+  | HTpi p => let '(v, C') := tpi_st C p in (ASegs v, C')
+  | HTp p => let '(v, C') := tp_st C p in (ASegs v, C')
+  | HQuote seg safe => let '(v, C') := quote_st C seg safe in (AQuoted v, C')
+  end.
+
+Lemma op_st_ok C o : caches_ok C -> fst (op_st C o) = pure_op o /\ caches_ok (snd (op_st C o)).
+Proof.
+  intros H. destruct o as [root q|root q|t st p|t st p|p|p|seg safe]; simpl.
+  - destruct (traverser_st C root q) as [v C'] eqn:E. destruct (traverser_st_ok C root q H) as [A B].
+    rewrite E in A, B. simpl in *. subst. auto.
+  - destruct (router_st C root q) as [v C'] eqn:E. destruct (router_st_ok C root q H) as [A B].
+    rewrite E in A, B. simpl in *. subst. auto.
+  - destruct (traverse_api_st C t st p) as [v C'] eqn:E. destruct (traverse_api_st_ok C t st p H) as [A B].
+    rewrite E in A, B. simpl in *. subst. auto.
+  - destruct (find_resource_st C t st p) as [v C'] eqn:E. destruct (find_resource_st_ok C t st p H) as [A B].
+    rewrite E in A, B. simpl in *. subst. auto.
+  - destruct (tpi_st C p) as [v C'] eqn:E. destruct (tpi_st_ok C p H) as [A B].
+    rewrite E in A, B. simpl in *. subst. auto.
+  - destruct (tp_st C p) as [v C'] eqn:E. destruct (tp_st_ok C p H) as [A B].
+    rewrite E in A, B. simpl in *. subst. auto.
+  - destruct (quote_st C seg safe) as [v C'] eqn:E. destruct (quote_st_ok C seg safe H) as [A B].
+    rewrite E in A, B. simpl in *. subst. auto.
+Qed.
+
+Fixpoint run_ops_st (C : caches) (os : list hop) : list hans :=
+  match os with
+  | [] => []
+  | o :: r => let '(a, C') := op_st C o in a :: run_ops_st C' r
+  end.
+
+(* from ANY state of the four caches in which every entry is a true pair (in
+   particular: whatever earlier histories left behind), every later history of
+   traversals, traverse()/find_resource() calls, path splits and segment quotings
+   under any safe sets answers exactly like the cache-free functions *)
+Theorem ops_history_free : forall os C, caches_ok C -> run_ops_st C os = map pure_op os.
+Proof.
+  induction os as [|o os IH]; intros C H; [reflexivity|].
+  simpl. destruct (op_st C o) as [a C'] eqn:E. destruct (op_st_ok C o H) as [A B].
+  rewrite E in A, B. simpl in A, B. rewrite A, (IH C' B). reflexivity.
+Qed.
+
+Definition cold : caches := mkCaches [] [] [] [].
+Lemma cold_ok : caches_ok cold.
+Proof. repeat split; constructor. Qed.
+
+(* non-vacuity: the segment cache is really hit under two safe sets and the tuple
+   path is still resolved as if nothing had been cached *)
+Example ops_history_example :
+  let t := Node (Some [([37; 52; 49]%N, Node None); ([65]%N, Node None)]) in
+  run_ops_st cold [HQuote [37; 52; 49]%N [37]%N; HQuote [37; 52; 49]%N path_segment_safe;
+                   HFind t [] (PTuple [[]; [37; 52; 49]%N]); HFind t [] (PTuple [[]; [37; 52; 49]%N])]
+  = [AQuoted (Ok [37; 52; 49]%N); AQuoted (Ok [37; 50; 53; 52; 49]%N);
+     AFound (Ok (FoundAt [0])); AFound (Ok (FoundAt [0]))].
+Proof. vm_compute. reflexivity. Qed.
